@@ -37,9 +37,14 @@ def menu(nums):
         evs.append(("logon2", n))  # a Logon inside the established session (numbered below / at / above expectation)
     for n in nums:
         # SequenceReset whose NewSeqNo is unusable (zero, not a number, missing): never honoured
-        for bad in ("0", "abc", "none"):
+        for bad in ("0", "abc", "none", str(2 ** 63 + 5)):
             evs.append(("rsbad", n, bad))
         evs.append(("gfbad", n, "abc"))
+    # a SequenceReset whose OWN number does not fit any counter (reset mode ignores it, but must not adopt it)
+    evs.append(("rsown", 2 ** 64, 9))
+    # MsgSeqNum spelled with non-ASCII digits (int() reads them): not a FIX int
+    for n in nums[:4]:
+        evs.append(("app", n, "U"))
     # de-duplicate keeping order
     seen, out = set(), []
     for e in evs:
@@ -57,7 +62,10 @@ def frame_of(ev, S, T, uid):
     if k == "app":
         extra = [(43, "Y"), (122, "20240101-00:00:00.000")] if ev[2] == "Y" else []
         cid = f"boom{uid}" if ev[2] == "X" else f"id{uid}"
-        return refs.frame("D", ("%06d" % n) if ev[2] == "P" else n, T, S, [(11, cid), (55, "X")], extra_header=extra)
+        spell = ("%06d" % n) if ev[2] == "P" else n
+        if ev[2] == "U":
+            spell = "".join(chr(0x0660 + int(ch)) for ch in str(n)).encode("utf-8")  # ARABIC-INDIC digits
+        return refs.frame("D", spell, T, S, [(11, cid), (55, "X")], extra_header=extra)
     if k == "logon2":
         return refs.frame("A", n, T, S, [(98, 0), (108, 100000)])
     if k == "hb":
@@ -68,7 +76,7 @@ def frame_of(ev, S, T, uid):
         return refs.frame("2", n, T, S, [(7, 1), (16, 0)])
     if k == "gf":
         return refs.frame("4", n, T, S, [(123, "Y"), (36, ev[2])])
-    if k == "rs":
+    if k in ("rs", "rsown"):
         return refs.frame("4", n, T, S, [(36, ev[2])])
     if k in ("rsbad", "gfbad"):
         body = [(123, "Y")] if k == "gfbad" else []
@@ -152,6 +160,11 @@ class Sim:
                "delivered": [(t, s) for (t, s, _) in new], "written": [(f.get("35"), f.get("34"), f.get("7")) for f in written],
                "outstanding": self.outstanding}
         ctxs = f"{rel(n, E)}:{st}"
+        if kind == "app" and ev[2] == "U":
+            if new or E2 != E:
+                return self._v("delivered_not_expected" if new else "counter_moved", "app_non_ascii_msgseqnum", "the application callback receives a message only when its MsgSeqNum is exactly the next expected inbound number", ev, det)
+            self.dead = c.connection_state.value <= 3
+            return None
         # 1. delivery only at the expected number, only the frame itself, once
         for (t, s, _b) in new:
             if kind != "app" or int(s) != n or len(new) > 1:
@@ -168,11 +181,13 @@ class Sim:
                 ok = True
             if kind == "gf" and n == E and ev[2] > E and E2 == ev[2]:
                 ok = True
-            if kind == "rs" and ev[2] > E and E2 == ev[2]:
+            if kind in ("rs", "rsown") and ev[2] > E and E2 == ev[2]:
                 ok = True
             if kind in ("rsbad", "gfbad"):
                 return self._v("counter_moved", f"{kind}:unusable_newseqno", "the expected number changes only by one per accepted message or to the NewSeqNo of an honoured forward SequenceReset", ev, det)
             if not ok:
+                if kind == "rsown":
+                    return self._v("counter_moved", "rs:own_number_adopted", "the expected number changes only by one per accepted message or to the NewSeqNo of an honoured forward SequenceReset", ev, det)
                 if kind in ("gf", "rs"):
                     how = "backward" if E2 < E else ("not_newseqno" if E2 != ev[2] else f"numbered_{rel(n, E)}")
                     cause = f"{kind}:{how}"
@@ -182,7 +197,7 @@ class Sim:
         # 3. ResendRequest discipline
         if self.outstanding and E2 > self.outstanding[1]:
             pass
-        if n > E and kind not in ("rs", "rsbad", "gfbad") and not self.dead:
+        if n > E and kind not in ("rs", "rsbad", "gfbad", "rsown") and not self.dead:
             out = self.outstanding
             if out is not None and E <= out[1]:
                 # the gap is closed only when the message that revealed it has been processed as well: until
@@ -200,7 +215,7 @@ class Sim:
             # Reset-mode frame numbered above expectation: demand nothing, but remember a request that was sent
             if self.outstanding is None or E >= self.outstanding[1]:
                 self.outstanding = (E, n)
-        elif rrs and n <= E and kind not in ("rs", "rsbad", "gfbad"):
+        elif rrs and n <= E and kind not in ("rs", "rsbad", "gfbad", "rsown"):
             return self._v("resend_request_spurious", f"{kind}:{ctxs}", "a ResendRequest is triggered by a message numbered above the expected one", ev, det)
         if self.outstanding and E2 > self.outstanding[1]:
             self.outstanding = None
